@@ -71,10 +71,11 @@ def isCall1 : Term → Bool
   | .app "call" (.cons _ .nil) => true
   | _ => false
 
-/-- the control constructs as goals: `call(G)`, `(C -> T ; E)`, `(C -> T)`, `once(G)` -/
+/-- the control constructs as goals: `call(G)`, `(C -> T ; E)`, `(C -> T)`, `once(G)`, `\\+ G` -/
 def ctlGoal : Term → Bool
   | .app "call" (.cons _ .nil) => true
   | .app "once" (.cons _ .nil) => true
+  | .app "\\+" (.cons _ .nil) => true
   | .app ";" (.cons (.app "->" (.cons _ (.cons _ .nil))) (.cons _ .nil)) => true
   | .app "->" (.cons _ (.cons _ .nil)) => true
   | _ => false
@@ -133,7 +134,7 @@ theorem bodyS_false (b : Term) : bodyS false b = bodyOK b := by
 theorem clauseS_false (c : Term) : clauseS false c = clauseOK c := by simp [clauseS, clauseOK, bodyS_false]
 /-- **the fragment (stage 3)**: stage 2 + the control constructs `ctlGoal` as goals of clause bodies,
     of the query and of the goals that are called: `call/1` (also as a variable in goal position),
-    if-then-else, if-then, `once/1` -/
+    if-then-else, if-then, `once/1`, `\\+`/1 -/
 abbrev CtlFrag (prog : List Term) (query : Term) : Prop := FragS true prog query
 /-- (the name under which stage 3a was delivered) -/
 abbrev CallFrag (prog : List Term) (query : Term) : Prop := FragS true prog query
@@ -364,12 +365,14 @@ inductive Ctl (g : Term) : Prop
   | ite (c t e : Term) : g = .app ";" (.cons (.app "->" (.cons c (.cons t .nil))) (.cons e .nil)) → Ctl g
   | ifthen (c t : Term) : g = .app "->" (.cons c (.cons t .nil)) → Ctl g
   | once (x : Term) : g = .app "once" (.cons x .nil) → Ctl g
+  | neg (x : Term) : g = .app "\\+" (.cons x .nil) → Ctl g
 
 theorem ctlGoal_shape {g : Term} (h : ctlGoal g = true) : Ctl g := by
   unfold ctlGoal at h
   split at h
   · exact .call _ rfl
   · exact .once _ rfl
+  · exact .neg _ rfl
   · exact .ite _ _ _ rfl
   · exact .ifthen _ _ rfl
   · cases h
@@ -380,6 +383,7 @@ theorem ctlGoal_app {g : Term} (h : ctlGoal g = true) : ∃ f a as, g = .app f (
   | ite c t e hx => exact ⟨_, _, _, hx⟩
   | ifthen c t hx => exact ⟨_, _, _, hx⟩
   | once x hx => exact ⟨_, _, _, hx⟩
+  | neg x hx => exact ⟨_, _, _, hx⟩
 
 /-- a `stepGoal`: a Horn goal or (with control constructs) a control construct -/
 theorem stepGoal_cases {s : Bool} {g : Term} (h : stepGoal s g = true) :
@@ -438,6 +442,7 @@ theorem altBodies_toRep {s : Bool} (b : Term) (h : bodyS s b = true) : altBodies
                     exact ⟨c, t, hx'.1⟩
                   | ifthen c t hx' => simp at hx'
                   | once x' hx' => simp at hx'
+                  | neg x' hx' => simp at hx'
               obtain ⟨c, t, rfl⟩ := hx
               simp only [toReps, RepList.cons.injEq] at hargs
               obtain ⟨ha, hb, _⟩ := hargs
